@@ -96,6 +96,27 @@ pub struct RunOpts {
     pub tty: bool,
     /// leave out `-c bitcoin` (Bitcoin is the documented default coin); ignored for other coins
     pub default_coin: bool,
+    /// directory that holds the HOME and TMPDIR of the run (default: the parent of the dump folder, i.e. the scratch
+    /// directory of the case); lets runs over different data directories share them
+    pub state_dir: Option<PathBuf>,
+}
+
+/// Some(cpu ticks used so far) if every thread of the process is sleeping (state S or D, i.e. blocked in the kernel -
+/// a stopped process has state T), None if any thread is running or the process is gone
+fn all_threads_blocked(pid: u32) -> Option<u64> {
+    let mut ticks = 0u64;
+    let mut n = 0;
+    for e in std::fs::read_dir(format!("/proc/{}/task", pid)).ok()?.flatten() {
+        let st = std::fs::read_to_string(e.path().join("stat")).ok()?;
+        let rest = st.rsplit_once(") ")?.1;
+        let f: Vec<&str> = rest.split(' ').collect();
+        if !matches!(f.first().copied(), Some("S") | Some("D")) {
+            return None;
+        }
+        ticks += f.get(11)?.parse::<u64>().ok()? + f.get(12)?.parse::<u64>().ok()?;
+        n += 1;
+    }
+    if n == 0 { None } else { Some(ticks) }
 }
 
 /// the clock shim built by `vp setup` (None when it is missing)
@@ -106,7 +127,7 @@ pub fn clock_lib() -> Option<PathBuf> {
 
 impl RunOpts {
     pub fn new(coin: Coin, callback: Callback) -> RunOpts {
-        RunOpts { coin, start: None, end: None, verify: false, callback, threads: None, fsize: None, nofile: None, pin: false, inject: None, trace: None, trace_paths: vec![], timeout_s: std::env::var("VP_TIMEOUT").ok().and_then(|v| v.parse().ok()).unwrap_or(90), verbose: 0, path_style: 0, bin: None, pause_on: None, clock_offset: None, tty: false, default_coin: false }
+        RunOpts { coin, start: None, end: None, verify: false, callback, threads: None, fsize: None, nofile: None, pin: false, inject: None, trace: None, trace_paths: vec![], timeout_s: std::env::var("VP_TIMEOUT").ok().and_then(|v| v.parse().ok()).unwrap_or(90), verbose: 0, path_style: 0, bin: None, pause_on: None, clock_offset: None, tty: false, default_coin: false, state_dir: None }
     }
 }
 
@@ -115,6 +136,9 @@ pub struct RunOut {
     pub code: Option<i32>,
     pub signal: Option<i32>,
     pub timed_out: bool,
+    /// the run was cut because every thread of the tool was blocked (sleeping in the kernel) and the process used no
+    /// CPU time for 12 s: not slowness, a state from which the run cannot complete
+    pub deadlocked: bool,
     pub stdout: Vec<u8>,
     pub stderr: Vec<u8>,
     /// files in the dump folder after the run (name -> content)
@@ -353,7 +377,18 @@ fn run_tool_once(datadir: &Path, dump: &Path, o: &RunOpts) -> Result<RunOut, Str
     cmd.stdout(Stdio::piped());
     cmd.stderr(Stdio::piped());
     let _ = (&out_path, &err_path);
-    cmd.env("HOME", io_dir.display().to_string());
+    // HOME and TMPDIR are private to the scratch directory of the case (runs of different cases execute at the same time
+    // and must not meet in a shared location) but shared by all runs of one case: what a run leaves there is part of the
+    // history a later run of the same case starts from
+    let case_dir = o.state_dir.clone().unwrap_or_else(|| dump.parent().unwrap_or(dump).to_path_buf());
+    let (home, tmp) = (case_dir.join("home"), case_dir.join("tmp"));
+    let _ = std::fs::create_dir_all(&home);
+    let _ = std::fs::create_dir_all(&tmp);
+    cmd.env("HOME", home.display().to_string());
+    cmd.env("TMPDIR", tmp.display().to_string());
+    cmd.env_remove("XDG_CACHE_HOME");
+    cmd.env_remove("XDG_RUNTIME_DIR");
+    cmd.env_remove("XDG_STATE_HOME");
     if let Some(d) = &cwd {
         cmd.current_dir(d);
     }
@@ -469,13 +504,34 @@ fn run_tool_once(datadir: &Path, dump: &Path, o: &RunOpts) -> Result<RunOut, Str
         v
     });
     // plain polling: no SIGCHLD machinery that could miss a wake-up when 16 shards wait at once
-    let deadline = std::time::Instant::now() + Duration::from_secs(o.timeout_s);
+    let started = std::time::Instant::now();
+    let deadline = started + Duration::from_secs(o.timeout_s);
     let mut nap = Duration::from_micros(500);
+    let mut deadlocked = false;
+    let mut idle: Option<(u64, std::time::Instant)> = None; // (cpu ticks, since when unchanged)
+    let mut next_probe = started + Duration::from_secs(8);
+    let watch_idle = o.inject.is_none() && o.trace.is_none() && o.pause_on.is_none();
     let status = loop {
         match child.try_wait().map_err(|e| e.to_string())? {
             Some(s) => break Some(s),
             None => {
-                if std::time::Instant::now() >= deadline {
+                let now = std::time::Instant::now();
+                if watch_idle && now >= next_probe {
+                    next_probe = now + Duration::from_secs(2);
+                    match all_threads_blocked(child.id()) {
+                        Some(ticks) => match idle {
+                            Some((t0, since)) if t0 == ticks => {
+                                if now.duration_since(since) >= Duration::from_secs(12) {
+                                    deadlocked = true;
+                                    break None;
+                                }
+                            }
+                            _ => idle = Some((ticks, now)),
+                        },
+                        None => idle = None,
+                    }
+                }
+                if now >= deadline {
                     break None;
                 }
                 std::thread::sleep(nap);
@@ -501,7 +557,7 @@ fn run_tool_once(datadir: &Path, dump: &Path, o: &RunOpts) -> Result<RunOut, Str
     let stdout = t_out.join().unwrap_or_default();
     let stderr = t_err.join().unwrap_or_default();
     let files = if o.callback.has_dump() { read_dir_files(dump) } else { BTreeMap::new() };
-    let res = RunOut { code, signal, timed_out, stdout, stderr, files };
+    let res = RunOut { code, signal, timed_out, deadlocked, stdout, stderr, files };
     if o.inject.is_some() {
         // keep the strace log next to stderr for diagnosis of the injected run
         if let Ok(l) = std::fs::read(io_dir.join("strace.log")) {
